@@ -314,6 +314,11 @@ def c08_1(ctx: Ctx) -> RuleResult:
             continue
         stores = [n for n in nodes_in(m, ast.Assign) if any(isinstance(t, ast.Subscript) for t in n.targets)]
         loops = [n for n in nodes_in(m, ast.For)]
+        if not loops:
+            # whole-array form: where(flip[:, newaxis], -S, S) with S = values[indices, :] (- rhs[:, newaxis])
+            wok, wwhy = _whole_array_setter(ctx, m, fields, flip_field, with_rhs)
+            res.add(m, m.node, f"{mname}: row k = {'values[index_k] - rhs_k' if with_rhs else 'values[index_k]'}, negated iff flip_k", wok, wwhy, construct=f"{mname} rows")
+            continue
         ok = len(loops) == 1
         why = "" if ok else "expected one loop over the row tables"
         base_ok = flip_ok = False
@@ -397,6 +402,60 @@ def c08_1(ctx: Ctx) -> RuleResult:
     res.exhaustive = True
     res.floor = 7
     return res
+
+
+def _whole_array_setter(ctx: Ctx, m: Func, fields: dict, flip_field: str, with_rhs: bool):
+    """The vectorised spelling of the row loop: the stored array is `where(flip[:, newaxis], -S, S)`, S the rows
+    `values[indices, :]` of the raw values, for the constraint values minus `rhs[:, newaxis]`."""
+    from ..pattern import norm
+
+    X = ctx.X
+
+    def strip(t):
+        """numpy.asarray / array wrappers and broadcasting of a per-row vector over the columns"""
+        while True:
+            if t[0] == "call" and t[1][0] == "global" and t[1][1] in ("numpy.asarray", "numpy.array", "numpy.ascontiguousarray") and t[2]:
+                t = t[2][0]
+            elif t[0] == "sub" and t[2][0] == "tuple" and len(t[2][1]) == 2 and t[2][1][0] == ("slice", ("const", None), ("const", None), ("const", None)) \
+                    and t[2][1][1] in (("global", "numpy.newaxis"), ("const", None)):
+                t = t[1]
+            elif t[0] == "call" and t[1] == ("global", "numpy.expand_dims") and t[2]:
+                t = t[2][0]
+            else:
+                return t
+
+    def is_field(t, name):
+        t = strip(t)
+        return t[0] == "attr" and t[2] == name and t[1][0] == "param"
+
+    def values_rows(t):
+        t = strip(t)
+        if t[0] != "sub" or not any(x[0] == "param" and x[2] == m.positional[1] for x in subterms(t[1])):
+            return False
+        idx = t[2][1][0] if t[2][0] == "tuple" and t[2][1] else t[2]
+        return is_field(idx, fields["idx"])
+
+    stores = [n for n in nodes_in(m, ast.Assign) if any(isinstance(t_, ast.Attribute) for t_ in n.targets)]
+    if len(stores) != 1:
+        return False, "expected one loop over the row tables, or one whole-array store"
+    t = X.at(m, stores[0].value)
+    t = strip(t)
+    if not (t[0] == "call" and t[1] == ("global", "numpy.where") and len(t[2]) == 3):
+        return False, "the stored array is not where(flip, -rows, rows)"
+    c, a, b = t[2]
+    if not is_field(c, flip_field):
+        return False, "the rows are not negated under their own flip flags"
+    na, nb = norm(a), norm(b)
+    if na != norm(("unary", "-", b)):
+        if nb == norm(("unary", "-", a)):
+            return False, "the rows are negated where the flip flag is *not* set"
+        return False, "the flipped alternative is not the negated row"
+    body = strip(b)
+    if with_rhs:
+        ok = body[0] == "binop" and body[1] == "-" and values_rows(body[2]) and is_field(body[3], fields["rhs"])
+        return ok, "" if ok else "row value is not `values[index] - rhs`"
+    ok = values_rows(body) and not any(x[0] == "attr" and x[2] == fields["rhs"] for x in X.closure(body))
+    return ok, "" if ok else "Jacobian row is not `values[index]` (no right-hand side)"
 
 
 # --------------------------------------------------------------------- C08.2
